@@ -44,6 +44,7 @@ def case_strategy():
         'wamp_exp': st.floats(-3.0, 0.477),      # log10 rad/s up to 3
         'famp_exp': st.floats(-2.0, 1.29),       # log10 m/s^2 up to ~2 g
         'sub': st.integers(0, 2 ** 31 - 1),
+        't0': st.sampled_from([0.0, 0.0, 250.0, -40.0, 86400.0]),      # records need not start at time zero
     })
 
 
@@ -99,7 +100,7 @@ def table_distance(a, b):
     return np.array([dpos.max(), dv.max(), ROT.angle_between(Ca, Cb).max()])
 
 
-def sut_run(ctx, pva, P, T, h, stype, nout):
+def sut_run(ctx, pva, P, T, h, stype, nout, t0=0.0):
     from pyins import strapdown
     n = int(round(T / h))
     if stype == 'rate':
@@ -108,10 +109,12 @@ def sut_run(ctx, pva, P, T, h, stype, nout):
     else:
         t = h * np.arange(0, n + 1)
         vals = N.sample_increment(t, h, P)     # row 0 = integral over [-h, 0]: the conventional "before" sample
-    imu = pd.DataFrame(vals, index=pd.Index(t, name='time'), columns=COLS)
+    # the signals are functions of the time since the start of the record; the stamps carry the record's origin
+    imu = pd.DataFrame(vals, index=pd.Index(t0 + t, name='time'), columns=COLS)
     inc = ctx.sut(strapdown.compute_increments_from_imu, imu, stype)
     tr = ctx.sut(strapdown.Integrator(pva).integrate, inc)
     ctx.check(len(tr) == n + 1, 'row_count', f'{len(tr)} vs {n + 1}')
+    ctx.check(np.array_equal(np.asarray(tr.index, float), t0 + t), 'time_index', f'trajectory stamps differ from the sample stamps (origin {t0})')
     idx = np.arange(0, n + 1, n // nout)
     return tr.iloc[idx]
 
@@ -121,7 +124,8 @@ NAMES = ('position', 'velocity', 'attitude')
 
 
 def run_convergence(case, ctx):
-    pva = gen.to_pva(case['pva'], 0.0)
+    t0 = case.get('t0', 0.0)
+    pva = gen.to_pva(case['pva'], t0)
     T, h, stype = case['T'], case['h'], case['sensor_type']
     if int(round(T / h)) % 10:
         h = 1 / 300               # the ten checkpoints must fall on samples (1/128 s over 2 s does not)
@@ -135,7 +139,7 @@ def run_convergence(case, ctx):
     ref1 = N.rk4(y0, P, T, n1, nout)
     ref2 = N.rk4(y0, P, T, 2 * n1, nout)
     lat = 'lat<5' if abs(pva.lat) < 5 else 'lat>75' if abs(pva.lat) > 75 else 'lat_mid'
-    ctx.label('hemi=' + ('N' if pva.lat >= 0 else 'S') + ('E' if pva.lon >= 0 else 'W'), lat, f'type={stype}', f'h={h}', f'T={T}',
+    ctx.label('hemi=' + ('N' if pva.lat >= 0 else 'S') + ('E' if pva.lon >= 0 else 'W'), lat, f'type={stype}', f'h={h}', f'T={T}', 't0=0' if t0 == 0 else 't0!=0',
               'speed=' + ('0' if case['pva']['speed'] == 0 else '<30' if case['pva']['speed'] < 30 else '>=30'),
               'alt=' + ('<1km' if pva.alt < 1000 else '>=1km'), 'pitch>85' if abs(pva.pitch) > 85 else 'pitch<=85')
     spd = np.linalg.norm(ref2[:, 3:6], axis=1).max()
@@ -154,7 +158,7 @@ def run_convergence(case, ctx):
     #   rule 1  err(h_k) <= 4 * max(change(h_k, h_k/2), change(h_k/2, h_k/4)) + floor
     #   rule 2  err(finest) <= 0.9 * max(err(coarser levels)) + floor      (two-term worst case: 0.875 with 3, 0.53 with 4 levels)
     nlev = 4 if T <= 300 else 3
-    runs = [sut_run(ctx, pva, P, T, h / 2 ** k, stype, nout) for k in range(nlev)]
+    runs = [sut_run(ctx, pva, P, T, h / 2 ** k, stype, nout, t0) for k in range(nlev)]
     ctx.check(all(np.all(np.isfinite(r.values)) for r in runs), 'not_finite', '')
     errs = [state_distance(r, ref2) for r in runs]
     chg = [table_distance(runs[k], runs[k + 1]) for k in range(nlev - 1)]
@@ -163,7 +167,7 @@ def run_convergence(case, ctx):
     # x cosh(T/570) for position and velocity (x1 at 300 s, x4 at 1200 s, x3600 at one Schuler period)
     amp_v = float(np.cosh(T * np.sqrt(2 * 9.8 / 6.37e6)))
     floor = FLOOR * np.array([amp_v, amp_v, max(1.0, T / 300.0)]) + 16 * referr
-    info = (f'pva={pva.values.tolist()} type={stype} h={h} T={T} rate_amp={wamp:.3g} force_amp={famp:.3g}; '
+    info = (f'pva={pva.values.tolist()} type={stype} h={h} T={T} t0={t0} rate_amp={wamp:.3g} force_amp={famp:.3g}; '
             f'err by level={[e.tolist() for e in errs]} change by level={[c.tolist() for c in chg]} ref_self_error={referr.tolist()}')
     lim1 = None
     for k in range(nlev - 2):
